@@ -39,7 +39,7 @@ var Seeds = map[string]hx.Seed{
 	// giant keys (0.7 page each): every leaf and every branch page holding them carries overflow pages, in a top-level and
 	// in a nested bucket
 	"bigkeys": {Name: "bigkeys", Prog: []apix.Op{beginW, op("mkb", nil, "p", ""), {K: "fill", P: P("p"), Key: "G", V: "s", N: 7}, op("put", P("p"), "a", "s"),
-		op("mkb", P("p"), "q", ""), {K: "fill", P: P("p", "q"), Key: "G", V: "s", N: 5}, {K: "seqset", P: P("p", "q"), N: 2}, commit}},
+		{K: "fill", P: P("p"), Key: "W", V: "s", N: 3}, op("mkb", P("p"), "q", ""), {K: "fill", P: P("p", "q"), Key: "G", V: "s", N: 5}, {K: "seqset", P: P("p", "q"), N: 2}, commit}},
 	// bucket names and keys that collide under naive path flattening: zero bytes, separators, one name a prefix of another
 	"oddnames": {Name: "oddnames", Prog: []apix.Op{beginW, op("mkb", nil, "p", ""), op("mkb", P("p"), "q", ""), op("put", P("p", "q"), "a", "s"), op("put", P("p", "q"), "b", "M"),
 		op("mkb", nil, "p\x00q", ""), op("put", P("p\x00q"), "a", "s"), op("put", P("p\x00q"), "c", "s"), op("mkb", P("p\x00q"), "r", ""), op("put", P("p\x00q", "r"), "d", "s"),
